@@ -99,8 +99,10 @@ def handshake(key, src, dst, sport, dport, payloads, isn=1000, **kw):
     return fr
 
 
-def arp_req(tpa, spa=PEER4, sha=net.MAC_PEER, op=1, mac_dst=b"\xff" * 6, **kw):
-    return net.eth(mac_dst, sha, 0x0806, net.arp(op, sha, spa, b"\0" * 6, tpa, **kw))
+def arp_req(tpa, spa=PEER4, sha=net.MAC_PEER, op=1, mac_dst=b"\xff" * 6, eth_src=None, **kw):
+    """eth_src: Ethernet source when it differs from the sender hardware address announced in the ARP body
+    (proxy / relayed / spoofed ARP)."""
+    return net.eth(mac_dst, sha if eth_src is None else eth_src, 0x0806, net.arp(op, sha, spa, b"\0" * 6, tpa, **kw))
 
 
 def echo4(src, dst, data=b"abcdefgh", ident=0x1234, seqno=1, ty=8, code=0, mac_dst=net.MAC_SELF):
